@@ -135,6 +135,49 @@ func StdMessages(s *Schema, tier string) []NV {
 			all.Set(f, val(f, i+1))
 		}
 		add("all", all)
+		// length sweep: a string (singular, or element 0 of a repeated string) of every length around the
+		// 1->2 and 2->3 byte length-prefix boundaries and around the values whose low 7 bits are all ones
+		// (126..129, 254..257, 382..385, 510..513, 16382..16385), followed on the wire by another field / element
+		var sweep []int
+		for _, c := range []int{128, 256, 384, 512, 16384} {
+			for d := -2; d <= 1; d++ {
+				sweep = append(sweep, c+d)
+			}
+		}
+		if tier == "thorough" {
+			sweep = nil
+			for l := 120; l <= 520; l++ {
+				sweep = append(sweep, l)
+			}
+			for l := 16376; l <= 16392; l++ {
+				sweep = append(sweep, l)
+			}
+		}
+		fs = root.SortedFields()
+		for i, f := range fs {
+			if f.Kind != KString || f.Card == Map {
+				continue
+			}
+			var after *Field
+			for _, g := range fs[i+1:] {
+				if g.Card == Single && g.Kind != KMessage {
+					after = g
+				}
+			}
+			for _, l := range sweep {
+				sv := Str(strings.Repeat("L", l))
+				m := MsgVal(root)
+				if f.Card == Repeated {
+					m.Set(f, ListOf(f, sv, Str("next")))
+				} else {
+					m.Set(f, sv)
+				}
+				if after != nil {
+					m.Set(after, Elem(after.Kind, 0))
+				}
+				add("length-sweep", m)
+			}
+		}
 	}
 	msgCache[key] = out
 	return out
